@@ -21,6 +21,7 @@ import (
 	"verifharness/kit"
 	"verifharness/lin"
 	"verifharness/respx"
+	"verifharness/schedx"
 	"verifharness/srv"
 )
 
@@ -607,5 +608,5 @@ func TestReplay(t *testing.T) {
 			return o
 		}
 	}
-	kit.Replay[Case](t, map[string]func(kit.RawCase) kit.Outcome{"inproc": kit.ReplaySub(rep(execInproc)), "tcp": kit.ReplaySub(rep(execTCP))})
+	kit.Replay[Case](t, map[string]func(kit.RawCase) kit.Outcome{"inproc": kit.ReplaySub(rep(execInproc)), "tcp": kit.ReplaySub(rep(execTCP)), "sched": kit.ReplaySub(schedx.Exec)})
 }
